@@ -296,6 +296,35 @@ def run(ctx):
                          "a parsed initial message can reach the checkout without infer (role of the previous transaction is reused)", pc.where(), wit and h.describe_path(wit))
 
 
+    # between the routing decision (infer / SET SERVER ROLE, both taken when the message is read) and the checkout, nothing writes the role
+    if h:
+        role_writers = set()
+        for n_, b_ in F.bodies.items():
+            if n_.startswith("pgcat::query_router::QueryRouter::") and "::{" not in n_ and any(proj_fields(st["lhs"])[-1:] == ["active_role"] for blk, i, st in b_.assigns()):
+                role_writers.add(n_)
+        # transitive: methods that call a writer
+        changed = True
+        while changed:
+            changed = False
+            for n_, b_ in F.bodies.items():
+                if n_.startswith("pgcat::query_router::QueryRouter::") and "::{" not in n_ and n_ not in role_writers and b_.calls(*sorted(role_writers)):
+                    role_writers.add(n_)
+                    changed = True
+        gets_ = h.calls(GET)
+        gp_ = h.calls("pgcat::client::Client::get_pool")
+        if gets_ and gp_:
+            # the region between the per-transaction pool refresh and the checkout
+            rm__ = [c.block for c in h.calls("pgcat::messages::read_message")]
+            fwd_ = set()
+            for g_ in gp_:
+                if h.dominates(g_.block, gets_[0].block) and g_.target is not None:
+                    fwd_ |= set(h.reach([g_.target], avoid_blocks=rm__ + [gets_[0].block]))
+            bwd_ = set(h.backreach([gets_[0].block], avoid_blocks=rm__))
+            between = [c for c in h.calls(*sorted(role_writers)) if c.block in fwd_ and c.block in bwd_]
+            r4.check(not between, "role-stable-until-checkout", "no QueryRouter method that writes the role is called between the pool refresh and the checkout (writers: %s)" % sorted(x.split("::")[-1] for x in role_writers),
+                     "%s is called after the routing decision and right before ConnectionPool::get: the role inferred for this message (or set with SET SERVER ROLE) is overwritten - a write goes to a replica when the pool's default role says so"
+                     % sorted({c.name.split("::")[-1] for c in between}), between[0].where() if between else "")
+
     # ---------------- R7 (D22) one batch, one server: a write anywhere in the pipelined batch decides
     r7 = ctx.rule("C05-R7", "the role of an extended-protocol batch (checked out when its Sync arrives) is not decided by its last Parse alone: the routine that infers the role for a Parse buffered before the checkout "
                   "keeps a primary decision of an earlier Parse of the same batch", floor=3)
